@@ -79,7 +79,9 @@ fn kind_of_lib(o: &PdfObject) -> &'static str {
 /// `ParseOptions::strict()`: open, unlock if needed, resolve every in-use object of the
 /// reference reader's cross-reference view; each must come back as the same kind of object
 /// with the same dictionary keys. Returns the list of complaints.
-fn strict_open_and_resolve(bytes: &[u8], file: &PdfFile, password: Option<&str>) -> Vec<String> {
+/// `file` is the view of the objects as stored; members of object streams of an encrypted file
+/// can only be seen through the unlocked view (`unlocked`), kinds and keys are compared as before.
+fn strict_open_and_resolve(bytes: &[u8], file: &PdfFile, unlocked: Option<&PdfFile>, password: Option<&str>) -> Vec<String> {
     let r = vx::guard(|| {
         let mut out = Vec::new();
         let mut reader = match PdfReader::new_with_options(Cursor::new(bytes), ParseOptions::strict()) {
@@ -99,7 +101,10 @@ fn strict_open_and_resolve(bytes: &[u8], file: &PdfFile, password: Option<&str>)
                 XEntry::InUse { gen, .. } => *gen,
                 XEntry::Compressed { .. } => 0,
             };
-            let want = file.get(num);
+            let want = match (e, unlocked) {
+                (XEntry::Compressed { .. }, Some(u)) => u.get(num),
+                _ => file.get(num),
+            };
             match reader.get_object(num, gen) {
                 Ok(o) => {
                     let (wk, gk) = (want.type_name(), kind_of_lib(o));
@@ -226,7 +231,13 @@ fn check_file(bytes: &[u8], cfg: Cfg, encrypted: Option<&str>, tag: &str) -> Ver
 
     // known defect 2 (object streams + classic table): members of the object streams = what the
     // table lists as free
-    let classic_members: Option<Vec<u32>> = if cfg.obj_streams && !cfg.xref_stream { prog::objstm_with_classic_xref_signature(&file) } else { None };
+    // (when the file is encrypted and its /Encrypt dictionary is an ordinary in-use object, the
+    // object streams are enciphered as streams and can only be looked into after unlocking, so
+    // the signature is taken after the unlock below)
+    let sig_cell = cfg.obj_streams && !cfg.xref_stream;
+    let defer_sig = encrypted.is_some()
+        && matches!(file.trailer.get("Encrypt"), Some(Obj::Ref(n, _)) if matches!(file.xref.get(n), Some(XEntry::InUse { .. })));
+    let mut classic_members: Option<Vec<u32>> = if sig_cell && !defer_sig { prog::objstm_with_classic_xref_signature(&file) } else { None };
 
     // ---- encryption entries of the trailer (§7.5.5 Table 15: /Encrypt, and /ID required with it)
     let has_encrypt = file.trailer.get("Encrypt").is_some();
@@ -269,6 +280,10 @@ fn check_file(bytes: &[u8], cfg: Cfg, encrypted: Option<&str>, tag: &str) -> Ver
                 v.fail("C03/unencrypted-file-has-encrypt-entry", format!("{tag}: trailer has /Encrypt although no encryption was requested"));
             }
         }
+    }
+
+    if sig_cell && defer_sig {
+        classic_members = prog::objstm_with_classic_xref_signature(&file);
     }
 
     // ---- the strict validator
@@ -335,15 +350,16 @@ fn check_file(bytes: &[u8], cfg: Cfg, encrypted: Option<&str>, tag: &str) -> Ver
     if !skip_strict {
         // when the trailer announces no encryption the library reads the file as plain
         let pw = if has_encrypt { encrypted } else { None };
-        // compare with the objects as stored (a second, never unlocked view of the file)
+        // compare with the objects as stored (a second, never unlocked view of the file); members
+        // of enciphered object streams are taken from the unlocked view
         let raw_view;
-        let view = if unlocked.is_some() {
+        let (view, unlocked_view) = if unlocked.is_some() {
             raw_view = PdfFile::parse(&bytes).expect("parsed before");
-            &raw_view
+            (&raw_view, Some(&file))
         } else {
-            &file
+            (&file, None)
         };
-        let complaints = strict_open_and_resolve(&bytes, view, pw);
+        let complaints = strict_open_and_resolve(&bytes, view, unlocked_view, pw);
         let enc_obj = match file.trailer.get("Encrypt") {
             Some(Obj::Ref(n, _)) => Some(*n),
             _ => None,
